@@ -1639,6 +1639,7 @@ func (w *transformingWriter) Write(data []byte) (n int, err error) {
 		if limit := int64(w.rw.op.methodConf.maxMsgBufferBytes); int64(len(data))+int64(w.buffer.Len()) > limit {
 			err := bufferLimitError(limit)
 			w.rw.reportError(err)
+			w.err = err
 			return 0, err
 		}
 		return w.buffer.Write(data)
@@ -1670,11 +1671,13 @@ func (w *transformingWriter) Write(data []byte) (n int, err error) {
 			if err != nil {
 				err = malformedRequestError(err)
 				w.rw.reportError(err)
+				w.err = err
 				return written, err
 			}
 			if limit := w.rw.op.methodConf.maxMsgBufferBytes; w.latestEnvelope.length > limit {
 				err = bufferLimitError(int64(limit))
 				w.rw.reportError(err)
+				w.err = err
 				return written, err
 			}
 			w.buffer = w.msg.reset(w.rw.op.bufferPool, false, w.latestEnvelope.compressed)
@@ -1684,6 +1687,7 @@ func (w *transformingWriter) Write(data []byte) (n int, err error) {
 		} else {
 			if err := w.flushMessage(); err != nil {
 				w.rw.reportError(err)
+				w.err = err
 				return written, err
 			}
 			if w.latestEnvelope.trailer && len(data) == 0 {
